@@ -239,6 +239,27 @@ func (e *env) feed(o feedOpts, f inputFn) {
 		}
 		ctxs := [][2]string{{"", ""}, {"[1,", ",2]"}, {`{"a":`, `,"b":[]}`}, {"{", `:true}`}}
 		idx := 0
+		// strings that are nothing but structural bytes, more of them than the nesting limit or a
+		// 64 KiB window (pre-scans that count brackets or quotes without tracking strings)
+		for ui, u := range []string{"[", "{", "]", "}", "[{", `\"`, ",", ":"} {
+			for ni, n := range []int{10001, 70000} {
+				if !cfg.Mine(ui*2 + ni) {
+					continue
+				}
+				for ci, cx := range ctxs {
+					if (ui+ni+ci)%2 == 1 && ci > 0 {
+						continue
+					}
+					b := append([]byte(cx[0]), '"')
+					b = append(b, strings.Repeat(u, n)...)
+					b = append(append(b, '"'), cx[1]...)
+					if err := call("strruns", b); err != nil {
+						report("strruns", b, err)
+						break
+					}
+				}
+			}
+		}
 	strruns:
 		for _, n := range ns {
 			for _, u := range units {
